@@ -60,7 +60,12 @@ def mutants(argv):
         meta = json.load(open(meta_path))
         pid = meta["property"]
         checks = meta.get("checks", [pid])
-        scratch = _scratch_with_patch(os.path.join(d, "patch.diff"))
+        try:
+            scratch = _scratch_with_patch(os.path.join(d, "patch.diff"))
+        except core.HarnessError as e:
+            bad += 1
+            print(f"[selftest] {name:28s} property={pid} STALE: {str(e)[:200]}", flush=True)
+            continue
         try:
             caught_by = []
             for c in checks:
@@ -71,11 +76,11 @@ def mutants(argv):
                     print(f"[selftest] {name}: check {c} exited {rc} (harness error)\n{tail}")
         finally:
             shutil.rmtree(scratch, ignore_errors=True)
-        expected = meta.get("expected", "caught")
+        expected = meta.get("expected", "caught")  # caught | missed (documented) | neutralised (a later fix made it harmless)
         ok = bool(caught_by) == (expected == "caught")
         bad += 0 if ok else 1
         rows.append((name, pid, expected, caught_by))
-        print(f"[selftest] {name:28s} property={pid} expected={expected:7s} caught_by={caught_by}", flush=True)
+        print(f"[selftest] {name:28s} property={pid} expected={expected:11s} caught_by={caught_by}", flush=True)
     print(f"[selftest] {len(rows)} seeded changes, {bad} not as expected")
     return 0 if bad == 0 else 1
 
